@@ -37,7 +37,7 @@ ASSUMPTIONS = [
     "all probes total, dictionaries never contain the LABREA.* switches (those are C16)",
     "'options it depends on' is over-approximated by the syntactic may-read set, so a hit is never demanded that the property does not promise",
 ]
-FLOORS = {"repeat_probes": (1500, 30000), "bound_checks": (800, 15000), "effect_sequences_checked": (150, 3000), "histories_needing_hits": (150, 3000), "rekeyed_overload_evaluations": (1200, 24000),
+FLOORS = {"repeat_probes": (1500, 30000), "bound_checks": (800, 15000), "effect_sequences_checked": (150, 3000), "histories_needing_hits": (150, 3000), "rekeyed_overload_evaluations": (1200, 24000), "unrelated_value_probes": (500, 10000),
           "attach_family_evaluations": (1500, 30000), "attach_family_body_runs": (700, 14000), "attach_family_same_effect_attached_twice": (150, 3000)}
 SHARDS_QUICK = 4
 FEATURES = {"allopts": True, "preset_templates": False, "domains": False}
@@ -153,9 +153,22 @@ def run_history(ctx, program, history, tag="random"):
             if got[0] != "ok":
                 continue
             rng = case_rng(ctx, step)
-            for variant, o2 in (("repeat", copy.deepcopy(o)), ("noise", U.with_noise(rng, o)), ("permuted", U.permuted(rng, o))):
-                if variant == "noise" and reads_everything:
+            # "unrelated": the VALUE of a present key that nothing can read changes (not in the may-read set of any
+            # part of the program, not referred to by any templated value of the dictionary - escaped braces are text)
+            unrelated = None
+            if not reads_everything:
+                everything = set(ref.may_read(program["root"])) | _template_refs(o)
+                for did_ in datasets:
+                    everything |= set(ref.may_read({"k": "ds", "id": did_}))
+                free = [k for k in o if not any(k == x or x.startswith(k + ".") for x in everything) and not isinstance(o[k], (dict, list))]
+                if free:
+                    k = rng.choice(sorted(free))
+                    unrelated = {**copy.deepcopy(o), k: ("changed", repr(o[k]))[0] + "-" + str(step)}
+            for variant, o2 in (("repeat", copy.deepcopy(o)), ("noise", U.with_noise(rng, o)), ("permuted", U.permuted(rng, o)), ("unrelated", unrelated)):
+                if o2 is None or (variant == "noise" and reads_everything):
                     continue
+                if variant == "unrelated":
+                    ctx.count("unrelated_value_probes")
                 mark = log.mark()
                 got2 = observe(G.root.evaluate, o2)
                 ctx.evaluations += 1
